@@ -42,6 +42,30 @@ def run_tlc(rep: Report, thorough: bool, want_cases=True):
     return cases
 
 
+def chain_nests(rep: Report, rng: random.Random, budget: int):
+    """Every Chain / Invert nesting to depth 3 (exhaustive, cheap): the programs on which merge_chains, slicing and
+    indexing have something to do.  Returns a sample that always contains inverted chains inside chains."""
+    r = tlc.run("MC_Combinators", "MC_Combinators_chains.cfg", workers=16, timeout=1200, coverage=False)
+    if r.violated:
+        rep.machinery_failure(f"Combinators (chains focus) violates {r.violated}")
+        return []
+    rep.add("states", r.distinct)
+    rep.add("transitions", r.generated)
+
+    def has_inverted_chain(q):
+        if q["k"] == "invert" and q["p"]["k"] == "chain":
+            return True
+        return any(has_inverted_chain(p) for p in q.get("parts", [])) or ("p" in q and has_inverted_chain(q["p"]))
+
+    cases = [c for c in r.cases if c["r"]["valid"] and c["prog"]["k"] == "chain" and c["depth"] >= 2]
+    special = [c for c in cases if has_inverted_chain(c["prog"])]
+    rest = [c for c in cases if not has_inverted_chain(c["prog"])]
+    pick = (special if len(special) <= budget // 2 else rng.sample(special, budget // 2)) + \
+           (rest if len(rest) <= budget // 2 else rng.sample(rest, budget // 2))
+    rep.set("chain_nests", {"enumerated": len(cases), "with_inverted_chain": len(special), "replayed": len(pick)})
+    return pick
+
+
 def simulate_deeper(rep: Report, depth: int, num: int, seed: int):
     """Programs of depth 3 from TLC's random simulation of the same machine (the exhaustive run stops at depth 2).
     In simulation mode TLC evaluates the Emit constraint on every candidate successor, so `num` behaviours give about
